@@ -48,9 +48,14 @@ def os_mount_points():
 
     partitions = Partitions(fstypes)
 
+    # a mount point can be in the mount table more than once (stacked
+    # mounts): it is one volume, its trash directories are read once
+    already_listed = set()
     for p in psutil.disk_partitions(all=True):
         if os.path.isdir(p.mountpoint) and \
-                partitions.should_used_by_trashcli(p):
+                partitions.should_used_by_trashcli(p) and \
+                p.mountpoint not in already_listed:
+            already_listed.add(p.mountpoint)
             yield p.mountpoint
 
 
